@@ -15,13 +15,18 @@
   memory that was never constructed — only `List_Resize` produces it), `pay` the payload the probe element carries.
   Byte-wise moves (memmove/realloc in Array, re-linking in List, Table_Rehash with `move = true`, robin-hood
   displacement through the swap spaces, Tree rotations and the predecessor copy of Tree_Rem, `swap` in the sort)
-  carry a token with the bytes: they appear here as list surgery that neither issues nor retires.
+  carry a token with the bytes: they appear here as list surgery that neither issues nor retires.  For Table and Tree
+  this is not an assumption: Cello/OwnConc.lean runs the same operations on the slot-array model of Cello/Table.lean and
+  the red-black model of Cello/RBTree.lean, and CelloProofs/Lemmas/OwnCompose.lean proves that those compute exactly the
+  steps `tableSet / treeSet / mapRem / mapResize / mapSetMany / mapAssign` below on the pairs they store.
 
   The model mirrors the code that exists, including two paths that break the property (kept as known findings,
   see CelloProofs/Props/C05.lean `…_refuted`):
     * Box_Assign copies the pointer: a container of Box is copied shallowly (both copies hold the same token),
       and `set` on a Box element drops the old pointee without finalising it;
-    * List_Resize(n > len) links zero-filled elements that were never constructed.
+    * List_Resize(n > len) links zero-filled elements that were never constructed;
+    * Array_Assign from a source whose `get(obj, $I(i))` raises (a Table / Tree) has set `nitems = len(obj)` before any
+      element exists and leaves it so.
   (A third one — List_Push_At constructed the new element before it validated the index and leaked it on
   IndexOutOfBoundsError — was repaired in /repo by 4077d96; the model follows the repaired order.)
 
@@ -52,7 +57,7 @@ inductive MapKind where
 deriving DecidableEq, Repr, Inhabited
 
 inductive Exc where
-  | indexOutOfBounds | valueError | keyError | formatError
+  | indexOutOfBounds | valueError | keyError | formatError | classError
 deriving DecidableEq, Repr, Inhabited
 
 def Exc.name : Exc → String
@@ -60,6 +65,7 @@ def Exc.name : Exc → String
   | .valueError => "ValueError"
   | .keyError => "KeyError"
   | .formatError => "FormatError"
+  | .classError => "ClassError"
 
 inductive Outcome where
   | ok
@@ -112,6 +118,22 @@ def arrayPushAt (next : Nat) (xs : List Tok) (i : Int) (p : Nat) : Res (List Tok
   let j : Int := if i < 0 then (n + 1) + i else i
   if j < 0 ∨ j > n then { val := xs, out := .raised .indexOutOfBounds }
   else { val := xs.insertIdx j.toNat ⟨next, p⟩, issued := [⟨next, p⟩] }
+
+/-- Array_Push_At / List_Push_At with a Box argument whose pointee is `t`: same index rules, the stored Box takes over the
+    pointer (Box_Assign into zero-filled memory) -/
+def arrayPushAtTok (xs : List Tok) (i : Int) (t : Tok) : Res (List Tok) :=
+  let n : Int := xs.length
+  let j : Int := if i < 0 then (n + 1) + i else i
+  if j < 0 ∨ j > n then { val := xs, out := .raised .indexOutOfBounds }
+  else { val := xs.insertIdx j.toNat t }
+
+def listPushAtTok (xs : List Tok) (i : Int) (t : Tok) : Res (List Tok) :=
+  if i = 0 then { val := t :: xs }
+  else
+    let n : Int := xs.length
+    let j : Int := if i < 0 then n + i else i
+    if j < 0 ∨ j ≥ n then { val := xs, out := .raised .indexOutOfBounds }
+    else { val := xs.insertIdx j.toNat t }
 
 /-- List_Push_At (after fix 4077d96): the index is validated first — 0 links at the head, any other index goes through
     `List_At` (normalised against `nitems`, so the end position is not reachable) which raises before anything is
@@ -190,14 +212,25 @@ def seqConcatProbe (next : Nat) (xs : List Tok) (src : List Tok) : Res (List Tok
 /-- …with Box elements: Box_Assign copies each pointer -/
 def seqConcatBox (xs : List Tok) (src : List Tok) : Res (List Tok) := { val := xs ++ src }
 
-/-- Array_Assign / List_Assign (and `copy` = assign into a zero-filled container) from a sequence of probe elements:
-    clear, then one construction per source element. `src` is what the source holds *after* the clear (empty when a
-    container is assigned to itself). -/
+/-- Array_Assign / List_Assign (and `copy` = assign into a zero-filled container) from a sequence of probe elements
+    held by *another* container: clear, then one construction per source element.  (`assign(x, x)` returns before the
+    clear since fix a3140e4, see `step`.) -/
 def seqAssignProbe (next : Nat) (xs : List Tok) (src : List Tok) : Res (List Tok) :=
   let new := mkFresh next (src.map (·.pay))
   { val := new, issued := new, retired := xs }
 
 def seqAssignBox (xs : List Tok) (src : List Tok) : Res (List Tok) := { val := src, retired := xs }
+
+/-- Array_Assign / List_Assign from a Table or Tree holding `n` pairs.  Both clear first.  An empty source then leaves the
+    empty sequence.  Otherwise `get(obj, $I(0))` raises (ValueError: an Int is not a key of the map): List_Assign has
+    pushed nothing yet; **Array_Assign has already set `nitems = len(obj)` and `malloc`ed the records** — record 0 is
+    zero-filled by `Array_Alloc`, the others are uninitialised memory (modelled as zero-filled: known finding
+    own-array-assign-partial). -/
+def seqAssignFromMap (k : SeqKind) (xs : List Tok) (n : Nat) : Res (List Tok) :=
+  if n = 0 then { val := [], retired := xs }
+  else match k with
+    | .list => { val := [], retired := xs, out := .raised .valueError }
+    | .array => { val := List.replicate n Tok.raw, retired := xs, out := .raised .valueError }
 
 /-! ### Array_Sort_By: quicksort, every exchange is a byte-wise `swap` -/
 
@@ -291,7 +324,7 @@ def mapSetMany (mk : MapKind) : Nat → List KV → List (Nat × Nat) → Res (L
     { val := r2.val, issued := r.issued ++ r2.issued, retired := r.retired ++ r2.retired,
       updated := r.updated ++ r2.updated }
 
-/-- Table_Assign / Tree_Assign: clear, then `set` every pair of the source (as it is after the clear) -/
+/-- Table_Assign / Tree_Assign from another map: clear, then `set` every pair of the source -/
 def mapAssign (mk : MapKind) (next : Nat) (kvs : List KV) (src : List KV) : Res (List KV) :=
   let r := mapSetMany mk next [] (src.map (fun kv => (kv.1.pay, kv.2.pay)))
   { val := r.val, issued := r.issued, retired := kvToks kvs ++ r.retired, updated := r.updated }
@@ -319,9 +352,9 @@ def Cont.isBox : Cont → Bool
   | .cell _ => true
   | _ => false
 
-/-- kinds a container can be created with: Array/List/Table/Tree of probes, Array of Box -/
+/-- kinds a container can be created with: Array/List/Table/Tree of probes, Array of Box, List of Box -/
 inductive CKind where
-  | arr | lst | tbl | tre | boxArr
+  | arr | lst | tbl | tre | boxArr | boxLst
 deriving DecidableEq, Repr, Inhabited
 
 def CKind.empty : CKind → Cont
@@ -330,6 +363,7 @@ def CKind.empty : CKind → Cont
   | .tbl => .map .table []
   | .tre => .map .tree []
   | .boxArr => .seq .array .box []
+  | .boxLst => .seq .list .box []
 
 inductive Op where
   | new (c : Nat) (k : CKind)
@@ -351,6 +385,7 @@ inductive Op where
   | mrem (c k : Nat)
   | del (c : Nat)
   | bassign (c d : Nat)
+  | bref (c p : Nat)                    -- `ref(box, new(Probe, p))`: Box_Ref overwrites the pointer
   | read (c : Nat)                      -- len / iteration / get / mem / hash / eq: no ownership effect
 deriving Repr, Inhabited
 
@@ -458,6 +493,8 @@ def step (w : World) : Op → World × Obs
     match lookup w.objs c with
     | some (.seq .array .probe xs) => commitSeq w c .array .probe (arrayPushAt w.next xs i p) [c]
     | some (.seq .list .probe xs) => commitSeq w c .list .probe (listPushAt w.next xs i p) [c]
+    | some (.seq .array .box xs) => commitSeq w c .array .box (withPointee w.next p (fun t => arrayPushAtTok xs i t)) [c]
+    | some (.seq .list .box xs) => commitSeq w c .list .box (withPointee w.next p (fun t => listPushAtTok xs i t)) [c]
     | _ => badOp w
   | .pop c =>
     match lookup w.objs c with
@@ -490,16 +527,28 @@ def step (w : World) : Op → World × Obs
     if c = d then badOp w else
     match lookup w.objs c, lookup w.objs d with
     | some (.seq k .probe xs), some (.seq _ .probe src) => commitSeq w c k .probe (seqConcatProbe w.next xs src) [c, d]
-    | some (.seq .array .box xs), some (.seq _ .box src) => commitSeq w c .array .box (seqConcatBox xs src) [c, d]
+    | some (.seq k .box xs), some (.seq _ .box src) => commitSeq w c k .box (seqConcatBox xs src) [c, d]
     | _, _ => badOp w
   | .assign c d =>
+    if c = d then
+      -- Array_Assign / List_Assign / Table_Assign / Tree_Assign (after fix a3140e4): `if (self is obj) return;`
+      match lookup w.objs c with
+      | some (.cell _) => badOp w
+      | some x => commit w c x.isBox (some x) { val := () } [c, d]
+      | none => badOp w
+    else
     match lookup w.objs c, lookup w.objs d with
     | some (.seq k ek xs), some (.seq _ .probe src) =>
-      commitSeq w c k .probe (seqAssignProbe w.next xs (if c = d then [] else src)) [c, d] (ek == .box)
-    | some (.seq .array _ xs), some (.seq _ .box src) =>
-      commitSeq w c .array .box (seqAssignBox xs (if c = d then [] else src)) [c, d]
+      commitSeq w c k .probe (seqAssignProbe w.next xs src) [c, d] (ek == .box)
+    | some (.seq k _ xs), some (.seq _ .box src) =>
+      commitSeq w c k .box (seqAssignBox xs src) [c, d]
     | some (.map k kvs), some (.map _ src) =>
-      commitMap w c k (mapAssign k w.next kvs (if c = d then [] else src)) [c, d]
+      commitMap w c k (mapAssign k w.next kvs src) [c, d]
+    -- sequence ← map (the keys of the harness's maps are probes, not Ints).  Map ← sequence is not modelled (`bad`):
+    -- Table_Assign / Tree_Assign take `Int` as key type from an Array / List, after which the map no longer accepts
+    -- probe keys — the model does not track element types.
+    | some (.seq k ek xs), some (.map _ src) =>
+      commitSeq w c k .probe (seqAssignFromMap k xs src.length) [c, d] (ek == .box)
     | _, _ => badOp w
   | .copy c d =>
     if c ≥ maxConts ∨ (lookup w.objs c).isSome then badOp w else
@@ -526,6 +575,13 @@ def step (w : World) : Op → World × Obs
     match lookup w.objs c, lookup w.objs d with
     | some (.cell _), some (.cell t) => commit w c true (some (.cell t)) { val := () } [c, d]
     | _, _ => badOp w
+  | .bref c p =>
+    -- Box_Ref on a stand-alone Box: the pointer is overwritten, the old pointee is not deleted
+    match lookup w.objs c with
+    | some (.cell _) =>
+      let t : Tok := ⟨w.next, p⟩
+      commit w c true (some (.cell (some t))) { val := (), issued := [t] } [c]
+    | _ => badOp w
   | .read c =>
     -- the read-only entry points (Len, Iter, Get.get, Get.mem, Hash, Cmp; `deref` for a Box) touch no element
     match lookup w.objs c with
@@ -547,8 +603,13 @@ def liveCount (w : World) : Nat := w.issuedLog.length - w.retiredLog.length
 
 /-! ## In-contract operations
 
-`inContract w op` excludes exactly the territory of the two known findings (see the header).  Everything else —
-including every failing call (pop of an empty container, bad index, absent key, refused resize) and
+`noKnownFinding w op` excludes exactly the territory of the known findings (see the header) and the assignments that
+the code refuses *after* it has cleared the destination (a failed call that changed its receiver is C12's subject).
+`inContract w op` additionally requires that the operation is one the op-file interpreters execute at all: an
+ill-formed operation (a name that is not bound, `new` onto a bound name, an operation the container kind does not have,
+`concat(x, x)`) is answered `bad` by harness and model alike and does nothing — it is *outside* the contract, so that no
+theorem holds on a history merely because the model skipped a step.
+Everything else — including every failing call (pop of an empty container, bad index, absent key, refused resize) and
 self-assignment — is inside. -/
 
 def srcIsBox (w : World) (d : Nat) : Bool :=
@@ -556,11 +617,19 @@ def srcIsBox (w : World) (d : Nat) : Bool :=
   | some x => x.isBox
   | none => false
 
-def inContract (w : World) : Op → Bool
+/-- `assign(c, d)` of a non-empty Table / Tree to an Array / List: refused (ValueError) after the clear; an
+    Array destination is left with `len` counting records that were never constructed (own-array-assign-partial) -/
+def crossRefused (w : World) (c d : Nat) : Bool :=
+  match lookup w.objs c, lookup w.objs d with
+  | some (.seq _ _ _), some (.map _ src) => !src.isEmpty
+  | _, _ => false
+
+def noKnownFinding (w : World) : Op → Bool
   | .concat _ d => !srcIsBox w d
-  | .assign _ d => !srcIsBox w d
+  | .assign c d => c = d || (!srcIsBox w d && !crossRefused w c d)
   | .copy _ d => !srcIsBox w d
   | .bassign _ _ => false
+  | .bref _ _ => false
   | .set c _ _ =>
     match lookup w.objs c with
     | some (.seq _ .box _) => false
@@ -570,5 +639,7 @@ def inContract (w : World) : Op → Bool
     | some (.seq .list _ xs) => n ≤ xs.length
     | _ => true
   | _ => true
+
+def inContract (w : World) (op : Op) : Bool := noKnownFinding w op && !(step w op).2.bad
 
 end Cello.Own
